@@ -45,7 +45,9 @@ func C19(r *h.Run) {
 		val   any
 	}
 	errVal := errors.New("panic-error")
-	vals := []pv{{-1, nil}, {0, nil}, {1, http.ErrAbortHandler}, {2, errVal}, {3, "panic-string"}, {4, structPanic{1, 2}}}
+	// class -1: returns normally; class -2: returns an ordinary error without panicking
+	vals := []pv{{-1, nil}, {-2, nil}, {0, nil}, {1, http.ErrAbortHandler}, {2, errVal}, {3, "panic-string"}, {4, structPanic{1, 2}}}
+	handlerErr := connect.NewError(connect.CodeAlreadyExists, errors.New("handler-error"))
 	for _, proto := range protos {
 		for _, kind := range kinds {
 			for _, point := range points {
@@ -99,6 +101,9 @@ func C19(r *h.Run) {
 								doPanic("before")
 								doPanic("between")
 								doPanic("after")
+								if v.class == -2 {
+									return nil, handlerErr
+								}
 								return connect.NewResponse(&h.Raw{B: []byte("ok")}), nil
 							}, hopts...)
 						case "client":
@@ -108,6 +113,9 @@ func C19(r *h.Run) {
 								}
 								doPanic("between")
 								doPanic("after")
+								if v.class == -2 {
+									return nil, handlerErr
+								}
 								return connect.NewResponse(&h.Raw{B: []byte("ok")}), nil
 							}, hopts...)
 						case "server":
@@ -117,6 +125,9 @@ func C19(r *h.Run) {
 								doPanic("between")
 								_ = s.Send(&h.Raw{B: []byte("b")})
 								doPanic("after")
+								if v.class == -2 {
+									return handlerErr
+								}
 								return nil
 							}, hopts...)
 						default:
@@ -127,6 +138,9 @@ func C19(r *h.Run) {
 								doPanic("between")
 								_ = s.Send(&h.Raw{B: []byte("b")})
 								doPanic("after")
+								if v.class == -2 {
+									return handlerErr
+								}
 								return nil
 							}, hopts...)
 						}
@@ -149,6 +163,8 @@ func C19(r *h.Run) {
 						switch {
 						case propagated != nil:
 							obs = "RAbortPropagated"
+						case peerCode != "" && peerMsg == "handler-error":
+							obs = "(RHandled 100)" // the handler's own error, class 100
 						case peerCode != "":
 							cls := -1
 							fmt.Sscanf(peerMsg, "recovered-%d", &cls)
@@ -161,12 +177,18 @@ func C19(r *h.Run) {
 						panicArg := "None"
 						if v.class >= 0 {
 							panicArg = fmt.Sprintf("(Some %d)", v.class)
+						} else if v.class == -2 {
+							panicArg = "(Some 100)" // returns an error of class 100 without panicking
 						}
 						r.Sample("recover", map[string]any{"in": in, "handle_calls": handleCalls, "peer_code": peerCode, "peer_message": peerMsg, "propagated": fmt.Sprint(propagated)})
 						r.Case("recover", fmt.Sprintf("RecCase %d %d %s %s %s", outer, inner, panicArg, h.CoqList(calls), obs),
 							map[string]any{"in": in, "impl_handle_calls": handleCalls, "impl_peer_code": peerCode, "impl_peer_message": peerMsg, "impl_propagated": fmt.Sprint(propagated)})
 						// ---- direct oracle ----
 						switch {
+						case v.class == -2:
+							if len(handleCalls) != 0 || propagated != nil || peerCode != "already_exists" || peerMsg != "handler-error" {
+								r.Fail(h.Failure{Key: "recover/no-panic-affected", Family: "recover", What: "a call that returns an error without panicking was affected by WithRecover (recovery function called, or the handler's error replaced)", Input: in, Actual: fmt.Sprint(handleCalls, " ", peerCode, ": ", peerMsg)})
+							}
 						case v.class == -1:
 							if len(handleCalls) != 0 || peerCode != "" || propagated != nil {
 								r.Fail(h.Failure{Key: "recover/no-panic-affected", Family: "recover", What: "a call that does not panic was affected by WithRecover", Input: in, Actual: fmt.Sprint(handleCalls, peerCode, propagated)})
